@@ -14,6 +14,9 @@ P_NoConnMeansPaused(o) == \A c \in CP(o) : ~c.conn => c.paused
 P_NoResumeWhilePaused(o) == o.resumedWhilePaused = <<>>
 \* when the connection drains, all paused producers have been resumed
 P_AllResumedAfterDrain(o) == \A c \in CP(o) : (~c.paused /\ c.conn) => (c.pset = <<>> /\ \A p \in ToSetS(c.deque) : c.sig[p] \in {"resume", "none"})
+\* the pause flag follows the transport: whatever the transport of the connection in use said last - from outside, or from
+\* inside a producer's turn or a re-send - is what the Outbound believes once the call stack is empty (a wake-up is never lost)
+P_FollowsTransport(o) == \A c \in CP(o) : c.conn => ((c.lastSignal = "resume" => ~c.paused) /\ (c.lastSignal = "pause" => c.paused))
 P_ThreeSets(o) == \A c \in CP(o) : ToSetS(c.pset) \cap ToSetS(c.uset) = {} /\ (ToSetS(c.pset) \cup ToSetS(c.uset)) = ToSetS(c.deque)
 \* inbound data is paused exactly while an open subchannel's application wants a pause; the state carries over
 P_InboundExact(o) == \A c \in CP(o) : c.conn => (c.cpaused <=> (c.wantPause # <<>>))
@@ -31,6 +34,6 @@ Init == k = 0
 Next == k < Len(All) /\ k' = k + 1
         /\ PrintT(<<"OBS", All[k'].tid, <<P_AllPausedWhenPaused(All[k']), P_NoConnMeansPaused(All[k']), P_NoResumeWhilePaused(All[k']),
                                           P_AllResumedAfterDrain(All[k']), P_ThreeSets(All[k']), P_InboundExact(All[k']),
-                                          P_PullObeys(All[k']), P_NoInternal(All[k']), P_InboundReal(All[k'])>>>>)
+                                          P_PullObeys(All[k']), P_NoInternal(All[k']), P_InboundReal(All[k']), P_FollowsTransport(All[k'])>>>>)
 Spec == Init /\ [][Next]_k
 ====
